@@ -6,6 +6,8 @@ from . import core, build, histories, oracles, qsim
 
 
 def hist_class(profile_kw):
+    if profile_kw.get("directed") == "restart-fault":
+        return histories.RestartFaultHistory
     if profile_kw.get("conc_injectors"):
         from . import conchist
         return conchist.ConcHistory
@@ -99,19 +101,33 @@ def reference_calls_log(prop, b, idx, salt, profile_kw, classes=("stat", "lstat"
     from . import shim
     h, res = run_one(prop, b, idx, salt, dict(profile_kw, keep_log=True), [])
     calls = []
+    pids = []
     for e in getattr(h.sim, "final_log", []):
-        if e.get("g") == "qmail-send" and e.get("r") == "send" and "n2" in e and e.get("c") in classes:
-            if e["c"] == "read" and not (e.get("path") or "").startswith("queue/"):
-                continue
-            calls.append((e["g"], e["n2"], e["c"], e.get("path") or ""))
-    # plan indices are per process: only the first incarnation of the daemon can be addressed
+        if e.get("g") == "qmail-send" and e.get("r") == "send" and e.get("p") not in pids:
+            pids.append(e.get("p"))
+    if profile_kw.get("incarnation"):
+        want = set(pids[profile_kw["incarnation"] - 1:profile_kw["incarnation"]])
+    elif profile_kw.get("plan_persist"):
+        want = set(pids)                 # the plan is applied to every incarnation: sweep the union
+    else:
+        want = set(pids[:1])             # plan indices are per process: only the first incarnation is addressed
+    counted = profile_kw.get("count", "m")
+    cls_of = {"stat": "t", "lstat": "t", "read": "r", "openr": "o"}
     seen = set()
     out = []
-    for c in calls:
-        if c[1] in seen:
-            break
-        seen.add(c[1])
-        out.append(c)
+    for e in getattr(h.sim, "final_log", []):
+        if e.get("p") not in want or e.get("g") != "qmail-send" or e.get("r") != "send" or "n2" not in e:
+            continue
+        c = e.get("c")
+        if c not in classes or cls_of.get(c, "m") not in counted:
+            continue                     # only calls of counted classes have an index of their own
+        if c == "read" and not (e.get("path") or "").startswith("queue/"):
+            continue
+        key = (e["n2"], c)
+        if key in seen:
+            continue
+        seen.add(key)
+        out.append((e["g"], e["n2"], c, e.get("path") or ""))
     return out, h
 
 
